@@ -101,6 +101,7 @@ type fnTrans struct {
 	selCases  map[string][]selCase // select site -> its cases (channel terms evaluated before the select)
 	curSel    []selCase
 	ghostVals map[string]sval
+	ghostUnreached map[string]sval // declared ghosts whose site is not on the path (arbitrary value)
 	usedContracts map[string]bool
 	lockKeys  []lockKeyRef
 	quietSpec int
